@@ -16,6 +16,16 @@ REPO = os.environ.get("VERIF_REPO", "/repo")
 COQ = os.path.join(VERIF, "coq")
 OCAML = os.path.join(VERIF, "ocaml")
 BUILD = os.path.join(VERIF, "build")
+if os.path.realpath(REPO) != "/repo":
+    # checking another checkout (scratch worktree): use a private copy of the Coq tree and build directory, so that
+    # regenerated gen/*.v and rebuilt drivers never disturb checks of /repo running at the same time
+    _tag = hashlib.sha256(os.path.realpath(REPO).encode()).hexdigest()[:10]
+    _alt = os.path.join(VERIF, "build", "alt-" + _tag)
+    os.makedirs(_alt, exist_ok=True)
+    subprocess.run(["rsync", "-a", "--delete", "--exclude", ".lia.cache", os.path.join(VERIF, "coq") + "/", os.path.join(_alt, "coq") + "/"], check=True)
+    COQ = os.path.join(_alt, "coq")
+    BUILD = os.path.join(_alt, "build")
+    os.makedirs(BUILD, exist_ok=True)
 EVID = os.path.join(VERIF, "evidence")
 REPLAYS = os.path.join(VERIF, "replays")
 sys.path.insert(0, os.path.join(VERIF, "tools"))
@@ -128,6 +138,11 @@ def regenerate(which=None):
     """re-run the translators on /repo's current sources.  Returns dict name -> None | error string"""
     import pyx2coq
     res = {}
+    with Lock("coq"):
+        return _regenerate(which, pyx2coq, res)
+
+
+def _regenerate(which, pyx2coq, res):
     for rel, out in GEN_KERNELS:
         if which is not None and out not in which:
             continue
@@ -168,9 +183,14 @@ def write_coqproject():
     return write_if_changed(os.path.join(COQ, "_CoqProject"), content)
 
 
-def coq_make(targets, timeout=1500, jobs=16):
-    """make the given .vo targets (paths relative to coq/).  Returns (ok, output)."""
+def coq_make(targets, timeout=1500, jobs=16, remove_first=()):
+    """make the given .vo targets (paths relative to coq/).  Returns (ok, output).
+    remove_first: files (relative to coq/) deleted under the build lock before make (forces recompilation)."""
     with Lock("coq"):
+        for f in remove_first:
+            pth = os.path.join(COQ, f)
+            if os.path.exists(pth):
+                os.remove(pth)
         changed = write_coqproject()
         if changed or not os.path.exists(os.path.join(COQ, "Makefile")) or (
             os.path.getmtime(os.path.join(COQ, "Makefile")) < os.path.getmtime(os.path.join(COQ, "_CoqProject"))
@@ -195,11 +215,9 @@ def check_props(prop_file, timeout=1500):
     Returns dict(ok, theorems, axioms{thm:[...]}, nonstd_axioms, output)"""
     vo = prop_file[:-2] + ".vo"
     # force recompilation of the props file itself so that Print Assumptions output is captured
-    for ext in (".vo", ".glob", ".vos", ".vok"):
-        p = os.path.join(COQ, prop_file[:-2] + ext)
-        if os.path.exists(p):
-            os.remove(p)
-    ok, out = coq_make([vo], timeout=timeout)
+    # (deleted under the build lock: two checks of one property must not race)
+    ok, out = coq_make([vo], timeout=timeout,
+                       remove_first=[prop_file[:-2] + ext for ext in (".vo", ".glob", ".vos", ".vok")])
     thms, pas = theorems_in(prop_file)
     axioms = {}
     nonstd = []
